@@ -53,8 +53,13 @@ StrLen(v) == CASE v = "" -> 0 [] v = "x" -> 1 [] v = "yz" -> 2 [] v = "e9" -> 2 
                [] v = "if" -> 2 [] v = "else if" -> 7 [] v = "elseif" -> 6 [] v = "elsif" -> 5
                [] v = "m" -> 1 [] v = "GET /" -> 5 [] v = "h" -> 1 [] v = "eA==" -> 4
                [] v = "10.0.0.0" -> 8 [] v = "::1" -> 3 [] v = "192.168.0.1" -> 11
+               \* values a "normalising" codec would change: U+FFFD itself (a U+FFFD b), a 4-byte rune, a leading U+FEFF,
+               \* U+2028 between letters, surrounding blanks; addresses in non-canonical spellings and non-addresses
+               [] v = "uFFFD" -> 5 [] v = "u1F600" -> 4 [] v = "uFEFF" -> 4 [] v = "u2028" -> 5 [] v = "sp" -> 3 [] v = "X" -> 1
+               [] v = "2001:DB8::1" -> 11 [] v = "0:0:0:0:0:0:0:1" -> 15 [] v = "::ffff:192.0.2.7" -> 16
+               [] v = "010.001.000.001" -> 15 [] v = "localhost" -> 9 [] v = "2001:0db8:0000::0001" -> 20
                [] OTHER -> CHOOSE n \in SweepNs : v = Sym(n)            \* "S<n>" of the size sweep
-IdLen(v) == CASE v = "req.http.A" -> 10 [] v = "req.http.B" -> 10 [] v = "var.x" -> 5 [] v = "var.p" -> 5 [] v = "var.q" -> 5
+IdLen(v) == CASE v = "req.http.X-Foo" -> 14 [] v = "req.http.x-foo:Bar" -> 18 [] v = "req.http.A" -> 10 [] v = "req.http.B" -> 10 [] v = "var.x" -> 5 [] v = "var.p" -> 5 [] v = "var.q" -> 5
               [] v = "STRING" -> 6 [] v = "INTEGER" -> 7 [] v = "BOOL" -> 4 [] v = "f" -> 1 [] v = "s" -> 1 [] v = "l" -> 1 [] v = "l:" -> 2
               [] v = "std.itoa" -> 8 [] v = "std.collect" -> 11 [] v = "std.tolower" -> 11 [] v = "std.toupper" -> 11 [] v = "std.strstr" -> 10 [] v = "lookup" -> 6 [] v = "a" -> 1 [] v = "b" -> 1 [] v = "d" -> 1
               [] v = "t" -> 1 [] v = "p" -> 1 [] v = "r" -> 1 [] v = "random" -> 6 [] v = "host" -> 4 [] v = "port" -> 4 [] v = "probe" -> 5
@@ -63,7 +68,9 @@ IdLen(v) == CASE v = "req.http.A" -> 10 [] v = "req.http.B" -> 10 [] v = "var.x"
 LitLen(v) == CASE v = "10" -> 2 [] v = "1" -> 1 [] v = "8" -> 1 [] v = "16" -> 2 [] v = "401" -> 3 [] v = "50" -> 2
                [] v = "1.5" -> 3 [] v = "0.25" -> 4 [] v = "0.1" -> 3 [] v = "9223372036854775807" -> 19
                [] OTHER -> 0                       \* "d<n>": an integer the encoder synthesises (no source literal)
-OpLen(v) == CASE v \in {"=", "+", "!", "~", "%", "-"} -> 1 [] OTHER -> 2
+OpLen(v) == CASE v \in {"=", "+", "!", "~", "%", "-", "<", ">"} -> 1 [] v \in {"<<=", ">>=", "&&=", "||="} -> 3
+              [] v \in {"rol=", "ror="} -> 4 [] OTHER -> 2
+RtLen(v) == CASE v \in {"10s", "60s"} -> 3 [] v = "1.5h" -> 4 [] v = "010ms" -> 5
 
 LeafFT == [ident |-> "IDENT_VALUE", string |-> "STRING_VALUE", ip |-> "IP_VALUE", int |-> "INTEGER_VALUE",
            float |-> "FLOAT_VALUE", rtime |-> "RTIME_VALUE", bool |-> "BOOL_VALUE", op |-> "OPERATOR"]
@@ -72,7 +79,7 @@ FTLeafKind == [IDENT_VALUE |-> "ident", STRING_VALUE |-> "string", IP_VALUE |-> 
                FLOAT_VALUE |-> "float", RTIME_VALUE |-> "rtime", BOOL_VALUE |-> "bool", OPERATOR |-> "op"]
 LeafTypes == DOMAIN FTLeafKind
 PayLen(x) == CASE x.k = "ident" -> IdLen(x.v) [] x.k \in {"string", "ip"} -> StrLen(x.v) [] x.k = "op" -> OpLen(x.v)
-               [] x.k = "rtime" -> 3 [] x.k = "bool" -> 1 [] x.k \in {"int", "float"} -> 8 + LitLen(x.v)
+               [] x.k = "rtime" -> RtLen(x.v) [] x.k = "bool" -> 1 [] x.k \in {"int", "float"} -> 8 + LitLen(x.v)
 
 (* container kinds and their frame types *)
 FT == [set |-> "SET_STATEMENT", add |-> "ADD_STATEMENT", unset |-> "UNSET_STATEMENT", remove |-> "REMOVE_STATEMENT",
@@ -400,11 +407,13 @@ Op(v) == [k |-> "op", v |-> v]
 Bool(b) == [k |-> "bool", v |-> IF b THEN "true" ELSE "false"]
 Thorough == Tier = "thorough"
 
-Strs == {Str(""), Str("x"), Str("e9"), Str("S65536")} \cup (IF Thorough THEN {Str("yz"), Str("S65535")} ELSE {})
+Strs == {Str(""), Str("x"), Str("e9"), Str("S65536"), Str("uFFFD"), Str("u1F600"), Str("sp"), Str("X")}
+        \cup (IF Thorough THEN {Str("yz"), Str("S65535"), Str("uFEFF"), Str("u2028")} ELSE {})
 \* 2^63-1 needs all 8 bytes of the INTEGER payload, 0.1 all 64 bits of the FLOAT payload
 ELeaf == Strs \cup {Id("req.http.A"), IntL("10"), IntL("9223372036854775807"), [k |-> "float", v |-> "1.5"], [k |-> "float", v |-> "0.1"],
-                    [k |-> "rtime", v |-> "10s"], Bool(TRUE)}
-        \cup (IF Thorough THEN {Bool(FALSE), [k |-> "float", v |-> "0.25"], Id("var.x")} ELSE {})
+                    [k |-> "rtime", v |-> "10s"], [k |-> "rtime", v |-> "60s"], [k |-> "rtime", v |-> "1.5h"], [k |-> "rtime", v |-> "010ms"],
+                    Bool(TRUE), Bool(FALSE), Id("req.http.X-Foo"), Id("req.http.x-foo:Bar")}
+        \cup (IF Thorough THEN {[k |-> "float", v |-> "0.25"], Id("var.x")} ELSE {})
 ESmall == {Id("req.http.A"), Str("x"), IntL("10")}
 Fcx(fn, args) == [k |-> "fcallx", fn |-> Id(fn), args |-> args]
 Infix(op, l, r) == [k |-> "infix", left |-> l, op |-> Op(op), right |-> r]
@@ -445,9 +454,15 @@ Exprs == ELeaf \cup EComp \cup D2
 
 Set(op, e) == [k |-> "set", ident |-> Id("req.http.A"), op |-> Op(op), value |-> e]
 Ret(hp, e) == [k |-> "return", hp |-> Bool(hp), expr |-> e]
+\* the parser accepts every assignment operator after `set` and after `add`
+AssignOps == {"=", "+=", "-=", "*=", "/=", "%=", "|=", "&=", "^=", "<<=", ">>=", "rol=", "ror=", "&&=", "||="}
+InfixOps == {"==", "!=", "~", "!~", "<", ">", "<=", ">=", "&&", "||", "+"}
 Simple ==
-  {Set("=", e) : e \in Exprs} \cup {Set("+=", IntL("10"))}
+  {Set("=", e) : e \in Exprs} \cup {Set(op, IntL("10")) : op \in AssignOps}
   \cup {[k |-> "add", ident |-> Id("req.http.A"), op |-> Op("="), value |-> e] : e \in ESmall}
+  \cup {[k |-> "add", ident |-> Id("req.http.X-Foo"), op |-> Op(op), value |-> Str("x")] : op \in AssignOps}
+  \cup {Set("=", [k |-> "group", e |-> Infix(op, Id("req.http.A"), Str("x"))]) : op \in InfixOps}
+  \cup {[k |-> "unset", ident |-> Id("req.http.X-Foo")], [k |-> "remove", ident |-> Id("req.http.x-foo:Bar")]}
   \cup {[k |-> "unset", ident |-> Id("req.http.A")], [k |-> "remove", ident |-> Id("req.http.A")]}
   \cup {[k |-> "declare", name |-> Id("var.x"), vtype |-> Id("STRING"), value |-> e] : e \in {Nil, Str("x"), Str("")}}
   \cup {[k |-> "call", sub |-> Id("s"), args |-> a] : a \in {<<>>, <<Str("x")>>, <<Str("x"), IntL("1")>>}}
@@ -502,6 +517,10 @@ Cidr(inv, ip, m) == [k |-> "cidr", inverse |-> inv, ip |-> [k |-> "ip", v |-> ip
 Acls == {[k |-> "acl", name |-> Id("a"), cidrs |-> cs] :
            cs \in {<<>>, <<Cidr(Nil, "10.0.0.0", IntL("8"))>>, <<Cidr(Bool(TRUE), "192.168.0.1", Nil)>>,
                    <<Cidr(Nil, "10.0.0.0", IntL("8")), Cidr(Bool(TRUE), "10.0.0.0", IntL("16")), Cidr(Nil, "::1", Nil)>>}}
+        \* spellings a decoder that parses the address would change, and entries that are not addresses
+        \cup {[k |-> "acl", name |-> Id("a"), cidrs |-> <<Cidr(c[1], ip, c[2])>>] :
+               ip \in {"2001:DB8::1", "0:0:0:0:0:0:0:1", "::ffff:192.0.2.7", "010.001.000.001", "localhost", "2001:0db8:0000::0001", ""},
+               c \in {<<Nil, Nil>>, <<Bool(TRUE), IntL("16")>>}}
 BProp(key, v) == [k |-> "bprop", key |-> Id(key), value |-> v]
 Backends == {[k |-> "backend", name |-> Id("b"), props |-> ps] :
                ps \in {<<>>, <<BProp("host", Str("h"))>>, <<BProp("host", Str("")), BProp("port", Str("x"))>>,
@@ -523,7 +542,19 @@ Subs == {[k |-> "sub", name |-> Id(c[1]), params |-> c[2], rtype |-> c[3], block
            c \in {<<"vcl_recv", <<>>, Nil>>, <<"f", <<>>, Id("BOOL")>>, <<"f", <<Param("STRING", "var.p")>>, Id("BOOL")>>,
                   <<"f", <<Param("STRING", "var.p"), Param("INTEGER", "var.q")>>, Nil>>},
            b \in {Blk(<<>>), Blk(<<Ret(FALSE, Bool(TRUE))>>), Blk(<<Esi, If("if", Blk(<<Esi>>), <<>>, Nil)>>)}}
-Decls == Acls \cup Backends \cup Directors \cup Tables \cup Subs
+\* every text payload of every node kind also carries the values a normalising codec would change
+OddTexts == {"uFFFD", "u1F600", "sp", "X"} \cup (IF Thorough THEN {"uFEFF", "u2028", "e9"} ELSE {})
+TextSlots ==
+  UNION {{[k |-> "log", value |-> Str(t)], [k |-> "synthetic", value |-> Str(t)], [k |-> "synthetic64", value |-> Str(t)],
+          [k |-> "error", code |-> IntL("401"), arg |-> Str(t)],
+          [k |-> "declare", name |-> Id("var.x"), vtype |-> Id("STRING"), value |-> Str(t)],
+          [k |-> "call", sub |-> Id("s"), args |-> <<Str(t), Str("x")>>],
+          [k |-> "fcall", fn |-> Id("std.collect"), args |-> <<Str("x"), Str(t)>>],
+          [k |-> "include", module |-> Str(t)],
+          Sw(<<Case(CTest("==", t), <<Break>>, FALSE), Case(CTest("~", "x"), <<Break>>, FALSE)>>, "d-1"),
+          [k |-> "table", name |-> Id("t"), vtype |-> Nil, props |-> <<TProp(t, Str("x")), TProp("x", Str(t))>>],
+          [k |-> "backend", name |-> Id("b"), props |-> <<BProp("host", Str(t))>>]} : t \in OddTexts}
+Decls == Acls \cup Backends \cup Directors \cup Tables \cup Subs \cup TextSlots
          \cup {[k |-> "penaltybox", name |-> Id("p")], [k |-> "ratecounter", name |-> Id("r")]}
 \* a long block: the encoding is longer than the decoder's 4096-byte read buffer; pad slides every frame
 \* header across the buffer boundary (pad = number of leading `esi;` statements, one 3-byte frame each)
